@@ -84,7 +84,7 @@ def gen_case(rng, wname, maxlen):
         axes = [a if rng.random() < 0.6 else a - nd for a in sorted(sub)]
     level = rng.choice([None, None, 1, 2, 3])
     dtype = rng.choice(["float64", "complex128", "complex128", "float64", "float32", "complex64"])
-    return dict(wave=wname, shape=shape, axes=axes, level=level, dtype=dtype)
+    return dict(wave=wname, shape=shape, axes=axes, level=level, dtype=dtype, seed=rng.randrange(2 ** 31))
 
 
 def corpus_cases():
@@ -141,7 +141,7 @@ def run_case(sp, rng, c, want_coq=True):
     """Runs fwt / iwt / linop on one configuration.  Returns dict with oracle failures and Coq expressions."""
     import pywt
     from sigpy import wavelet as WV
-    r = np.random.RandomState(rng.randrange(2 ** 31))
+    r = np.random.RandomState(c["seed"] if c.get("seed") is not None else rng.randrange(2 ** 31))
     shape, wave, level = c["shape"], c["wave"], c["level"]
     axes = None if c["axes"] is None else tuple(c["axes"])
     x = rand_array(r, shape, c["dtype"])
@@ -203,6 +203,8 @@ def classify(c):
 
 def tolist(a):
     a = np.asarray(a)
+    if a.size > 4000:
+        return "array of shape %s omitted (regenerated from case['seed'] by --replay)" % (list(a.shape),)
     if np.iscomplexobj(a):
         return [[float(v.real), float(v.imag)] for v in a.ravel()]
     return [float(v) for v in a.ravel()]
@@ -308,7 +310,7 @@ def replay(obj):
     import random
     c = obj["case"]
     d = run_case(sp, random.Random(0), c, want_coq=False)
-    if obj.get("input") is not None:       # re-run on the recorded input
+    if isinstance(obj.get("input"), list):       # re-run on the recorded input
         from sigpy import wavelet as WV
         cplx = c["dtype"].startswith("complex")
         raw = obj["input"]
